@@ -43,6 +43,7 @@ import copy
 import importlib
 import json
 import math
+import os
 
 import numpy as np
 
@@ -69,7 +70,8 @@ REQUIRED_TAGS = ['op=insert', 'op=refine', 'op=raise', 'op=lower', 'op=reverse',
                  'op=split', 'op=append', 'op=makeper', 'op=lowerper', 'op=affine', 'op=section', 'op=extrude', 'op=clone', 'op=identical',
                  'pardim=1', 'pardim=2', 'pardim=3', 'rational', 'periodic-dir', 'len>=8', 'pool>=3', 'err:ValueError',
                  'ctor=valid-open', 'ctor=valid-periodic', 'ctor=decreasing', 'ctor=too-few', 'ctor=order<=0',
-                 'ctor=periodic-mismatch', 'ctor=within-tol', 'ctor=beyond-tol', 'ctor=gap', 'ctor=short-periodic', 'ctor=wide-periodic', 'wf=true',
+                 'ctor=periodic-mismatch', 'ctor=within-tol', 'ctor=beyond-tol', 'ctor=gap', 'ctor=short-periodic', 'ctor=wide-periodic', 'ctor=tol-inversion',
+                 'ctor-eval=in-process', 'wf=true',
                  'stream=small-periodic', 'small-periodic:n<p+k', 'small-periodic:n+1<=p+k',
                  'insert=periodic', 'insert=open', 'split=periodic', 'split=open', 'raise=open', 'raise=periodic', 'raise:pardim=1',
                  'raise:pardim=2', 'lower=open', 'append=equal-orders', 'append=unequal-orders', 'identical=unequal-orders',
@@ -86,6 +88,7 @@ CLASS_REVERSE_PER = 'reverse-periodic-flip-only'             # C06 (model follow
 CLASS_EXTRUDE_MUT = 'extrude-mutates-operand'                # C11 (model follows the property: operand untouched)
 CLASS_CTOR_GAP = 'constructor-accepts-non-periodic-knot-vector'   # C08
 CLASS_LOWER_WEIGHTS = 'lower-order-nonpositive-weights'
+CLASS_CTOR_INVERSION = 'constructor-accepts-tolerance-inversion-evaluate-segfault'
 CLASS_MAKEPER_SHORT = 'make-periodic-short-direction-shape-mismatch'   # fewer than order+continuity functions
 # BSplineBasis(p, knots, k) with 2p <= len(knots) < p+k+1 (only possible for k >= p-1): rejected with ValueError
 # (`if n < p + k + 1` in front of the periodic comparison, `Basis.CtorShortPeriodic` in the model) since the repair of
@@ -1043,6 +1046,39 @@ def _ctor_cases(rng, n):
         add('short-periodic', p, [float(x) for x in range(m)] if rng.random() < 0.5 else sorted(gen.increasing(rng, m)), k,
             'reject' if m < p + k + 1 else 'by-definition')
     add('short-periodic', 2, [0, 0, 1, 1], 5, 'reject')
+    # decreases INSIDE the tolerance are accepted by the constructor (finding
+    # constructor-accepts-tolerance-inversion-evaluate-segfault: the compiled evaluator bisects the stored vector, an
+    # unsorted one made it read outside its scratch array); since the repair the constructor stores the running
+    # maximum.  Inversions of 1e-17 .. 0.9*tol at several positions, incl. inside the first / last p knots, each
+    # followed by evaluate() at the affected knots, at the ends and in between.
+    add('tol-inversion', 3, [0, 5.551115123125783e-17, 0, 0.5, 1, 1, 1], -1, 'accept')
+    out[-1]['eval'] = [0.0, 5.551115123125783e-17, 0.25, 0.5, 1.0]
+    for rep in range(10 if n <= 300 else 40):
+        p = rng.randint(1, 4)
+        if rng.random() < 0.3 and p >= 2:
+            k = rng.randint(0, p - 2)
+            b = gen.periodic_basis(rng, p, k, n_interior=rng.randint(1, 3))
+        else:
+            k = -1
+            b = gen.open_basis(rng, p, n_interior=rng.randint(0, 3), clamped=rng.random() < 0.8)
+        kn = [float(x) for x in b['knots']]
+        m = len(kn)
+        where = rng.choice(['first', 'last', 'interior', 'any'])
+        lo, hi = {'first': (1, max(1, p - 1)), 'last': (max(1, m - p), m - 1), 'interior': (min(p, m - 1), max(min(p, m - 1), m - p - 1)),
+                  'any': (1, m - 1)}[where]
+        j = rng.randint(lo, max(lo, hi))
+        delta = rng.choice([1e-17, 1e-14, 1e-12, 0.5 * TOL, 0.9 * TOL])
+        kn2 = list(kn)
+        kn2[j] = kn2[j - 1] - delta          # knots[j] < knots[j-1] by delta
+        if kn2[j] == kn2[j - 1] or any(kn2[x + 1] - kn2[x] < -0.95 * TOL for x in range(m - 1)):
+            continue
+        if k >= 0 and any(abs((kn2[i + 1] - kn2[i]) - (kn2[-p - k + i] - kn2[-p - k - 1 + i])) > 0.5 * TOL for i in range(p + k - 1)):
+            continue     # keep the periodic comparison away from its own threshold
+        add('tol-inversion', p, kn2, k, 'accept')
+        a, e = kn[p - 1], kn[m - p]
+        ts = sorted({kn2[j - 1], kn2[j], kn[min(j + 1, m - 1)], a, e, 0.5 * (a + e), 0.5 * (kn2[j - 1] + kn[min(j + 1, m - 1)])})
+        out[-1]['eval'] = [t for t in ts if a <= t <= e] or [0.5 * (a + e)]
+        out[-1]['where'] = where
     for p, k in [(2, 1), (3, 2), (2, 3), (3, 4), (1, 0), (4, 3)]:
         m = p + k + 1 + rng.randint(0, 3)
         m = max(m, 2 * p)
@@ -1152,6 +1188,8 @@ def generate(rng, tier):
 
 def model_line(s):
     if s['kind'] == 'ctor':
+        if s.get('eval'):
+            return line('c10_ctor_eval', s['order'], list(s['knots']), s['periodic'], TOL, list(s['eval']))
         return line('c10_ctor', s['order'], list(s['knots']), s['periodic'], TOL)
     return line('c10_history', [gen.enc_object(o) for o in s['pool']], TOL, [_enc_instr(i) for i in s['ops']])
 
@@ -1175,10 +1213,68 @@ def _cached_run(sp, s):
     return _run_cache[k]
 
 
+class InterpreterCrash(Exception):
+    """The guarded child process that ran the call died from a signal (memory-safety defect of the tree under test)."""
+
+
+_SORTS = {}
+
+
+def _ctor_sorts(sp):
+    """Does the constructor of the tree under test store an exactly non-decreasing vector for an input with a decrease
+    inside the tolerance (repair of constructor-accepts-tolerance-inversion-evaluate-segfault)?  Decided by calling the
+    constructor only (safe); cached per loaded package."""
+    key = getattr(sp, '__file__', None)
+    if key not in _SORTS:
+        b = sp.BSplineBasis(3, [0, 5.551115123125783e-17, 0, 0.5, 1, 1, 1])
+        _SORTS[key] = bool(np.all(np.diff(np.asarray(b.knots, dtype=float)) >= 0))
+    return _SORTS[key]
+
+
+_CHILD = r'''
+import sys, json
+sys.path.insert(0, sys.argv[1])
+import numpy as np
+import splipy
+from splipy import state
+q = json.loads(sys.argv[2])
+b = splipy.BSplineBasis(q['order'], q['knots'], q['periodic'])
+rows = [np.asarray(b.evaluate(t), dtype=float).reshape(-1).tolist() for t in q['eval']]
+print(json.dumps({'knots': [float(x) for x in b.knots], 'rows': rows}))
+'''
+
+
+def _ctor_eval(sp, s):
+    """BSplineBasis(order, knots, periodic) and evaluate() at s['eval'].  In-process when the constructor of the tree
+    under test sorts its knots; otherwise (unrepaired tree: the compiled evaluator may read outside its arrays) in a
+    child process, whose death by a signal is reported as InterpreterCrash instead of taking the harness down."""
+    if _ctor_sorts(sp):
+        b = sp.BSplineBasis(s['order'], list(s['knots']), s['periodic'])
+        rows = [np.asarray(b.evaluate(t), dtype=float).reshape(-1).tolist() for t in s['eval']]
+        return {'knots': [float(x) for x in b.knots], 'rows': rows, 'how': 'in-process'}
+    import subprocess
+    import sys
+    root = os.path.dirname(os.path.dirname(os.path.abspath(sp.__file__)))
+    q = json.dumps({'order': s['order'], 'knots': list(s['knots']), 'periodic': s['periodic'], 'eval': list(s['eval'])})
+    r = subprocess.run([sys.executable, '-c', _CHILD, root, q], stdout=subprocess.PIPE, stderr=subprocess.PIPE, text=True, timeout=120)
+    if r.returncode < 0 or r.returncode in (139, 134, 136, 138):
+        raise InterpreterCrash('BSplineBasis(%r, %r, %r).evaluate(%r): the interpreter died (return code %d)' % (
+            s['order'], list(s['knots']), s['periodic'], list(s['eval']), r.returncode))
+    if r.returncode != 0:
+        last = (r.stderr.strip().splitlines() or ['?'])[-1]
+        kind = last.split(':')[0].strip()
+        raise {'ValueError': ValueError, 'IndexError': IndexError, 'ZeroDivisionError': ZeroDivisionError}.get(kind, RuntimeError)(last)
+    d = json.loads(r.stdout.strip().splitlines()[-1])
+    d['how'] = 'subprocess'
+    return d
+
+
 def run_impl(sp, s):
     if s['kind'] == 'ctor':
-        sp.BSplineBasis(s['order'], list(s['knots']), s['periodic'])
-        return 'ok'
+        if s.get('eval'):
+            return _ctor_eval(sp, s)
+        b = sp.BSplineBasis(s['order'], list(s['knots']), s['periodic'])
+        return {'knots': [float(x) for x in b.knots]}
     return _cached_run(sp, s)
 
 
@@ -1325,11 +1421,22 @@ def compare(s, iv, mv):
             if isinstance(iv, Err) and is_err(mv):
                 return None if iv.kind == err_kind(mv) else 'impl raised %s, model %s' % (iv.kind, err_kind(mv))
             return 'impl %r vs model %r' % (iv, mv)
-        if not (isinstance(mv, list) and len(mv) == 2 and str(mv[0]) == 'ok'):
+        if not (isinstance(mv, list) and len(mv) in (3, 4) and str(mv[0]) == 'ok'):
             return 'model answered %r' % (mv,)
-        ve = _valid_exact(s['order'], s['knots'], s['periodic'])
+        # the stored knots: the running maximum of the input, exactly (max is exact in floating point)
+        stored = [to_float(x) for x in mv[2]]
+        if not isinstance(iv, dict) or [float(x) for x in iv['knots']] != stored:
+            return 'stored knots: impl %r vs model %r' % (iv.get('knots') if isinstance(iv, dict) else iv, stored)
+        ve = _valid_exact(s['order'], stored, s['periodic'])
         if (str(mv[1]) == 'true') != ve:
-            return 'validB %s vs exact transcription of Valid %r' % (mv[1], ve)
+            return 'validB %s vs exact transcription of Valid %r (stored knots)' % (mv[1], ve)
+        if s.get('eval'):
+            if len(mv) != 4 or len(mv[3]) != len(iv['rows']):
+                return 'model rows %r' % (str(mv)[:80],)
+            for t, ri, rm in zip(s['eval'], iv['rows'], mv[3]):
+                rm = [to_float(x) for x in rm]
+                if len(ri) != len(rm) or any(abs(a - b) > 1e-9 * max(1.0, abs(b)) for a, b in zip(ri, rm)):
+                    return 'evaluate(%r): impl %r vs model %r' % (t, ri, rm)
         return None
     if isinstance(iv, Err):
         return 'harness could not build the start objects: %r' % iv
@@ -1384,13 +1491,35 @@ def _short_step(st):
 
 def _ctor_oracle(sp, s):
     p, kn, k = s['order'], s['knots'], max(s['periodic'], -1)
+    pre = []
     try:
-        sp.BSplineBasis(p, list(kn), s['periodic'])
+        b0 = sp.BSplineBasis(p, list(kn), s['periodic'])
         accepted = True
+        # every constructed basis has a non-decreasing knot vector (decreases inside the tolerance are accepted: they
+        # must not survive in the stored vector -- the compiled evaluator bisects it)
+        st = [float(x) for x in b0.knots]
+        bad = [i for i in range(len(st) - 1) if st[i + 1] < st[i]]
+        if bad:
+            pre.append('constructor accepted order %d, knots %r, periodic %d and stores a knot vector that is not non-decreasing '
+                       '(knots[%d] = %r > knots[%d] = %r)' % (p, kn, k, bad[0], st[bad[0]], bad[0] + 1, st[bad[0] + 1]))
+        if s.get('eval'):
+            try:
+                ev = _ctor_eval(sp, s)
+            except InterpreterCrash as e:
+                return pre + [str(e)]
+            except Exception as e:  # noqa: BLE001
+                return pre + ['evaluate on the accepted basis raised %s' % exc_kind(e)]
+            a, e_ = st[p - 1], st[len(st) - p]
+            for t, row in zip(s['eval'], ev['rows']):
+                if a <= t <= e_ and (abs(sum(row) - 1.0) > 1e-9 or min(row) < -1e-12):
+                    pre.append('evaluate(%r) on the accepted basis (knots %r): row %r is not a partition of unity' % (t, st, row))
+                    break
     except ValueError:
         accepted = False
     except Exception as e:  # noqa: BLE001
         return ['constructor raised %s instead of ValueError / accepting' % exc_kind(e)]
+    if pre:
+        return pre
     knf = [F(x) for x in kn]
     tol = F(TOL)
     # malformed by the definitions of the property, with the tolerance on either side of every comparison
@@ -1484,6 +1613,10 @@ def classify(s, res=None):
         p, k, m = s['order'], max(s['periodic'], -1), len(s['knots'])
         if p >= 1 and k >= 0 and 2 * p <= m < p + k + 1:
             return None      # too short for the periodic comparison: a plain reject (ValueError), no known class
+        orc = ' '.join((res or {}).get('oracle') or [])
+        if 'is not non-decreasing' in orc or 'the interpreter died' in orc:
+            # only effective while known_findings.json lists it (a tree without the running-maximum repair)
+            return CLASS_CTOR_INVERSION
         return CLASS_CTOR_GAP if s['cls'] == 'gap' or (s['expect'] == 'by-definition' and s['periodic'] >= 0) else None
     try:
         r = _cached_run(_sp(), s)
@@ -1528,6 +1661,10 @@ def tags(s, res):
         t = ['ctor=' + s['cls']]
         iv = res['impl']
         t.append('ctor-rejected' if isinstance(iv, Err) else 'ctor-accepted')
+        if isinstance(iv, dict) and iv.get('how'):
+            t.append('ctor-eval=' + iv['how'])
+        if s.get('where'):
+            t.append('tol-inversion:' + s['where'])
         return t
     t = set()
     iv = res['impl']
